@@ -70,18 +70,19 @@ Example C03_regex_inverts_printer_checks_except_nonvacuous :
 Proof. split; [exact w_tab_full_print|split; [exact w_tab_full_body_free|vm_compute; reflexivity]]. Qed.
 
 (** 2c. setGenExpr on a generated column as the planner writes it -- after "(" or ",", spaces, `name`
-    (name in \w+), any comma-free text (type, NULL), AS, spaces, the wrapped expression: if no match of
+    (name in \w+), a white-space byte (required by the regexp since the fix "sqlite inspection looks for the
+    generated-column expression after the whole column name"), any comma-free text (type, NULL), AS, spaces, the wrapped expression: if no match of
     the column's regexp starts earlier in the statement and no further "AS (" follows in the same
     comma-free stretch, the expression is recovered exactly.  Both premises are decidable on the text
     and both are necessary (3b). *)
 Theorem C03_regex_inverts_printer_genexpr_except :
-  forall name pre c sp1 mid w e rest,
-  name_ok name -> open_ch c = true -> forallb is_space sp1 = true ->
+  forall name pre c sp1 s0 mid w e rest,
+  name_ok name -> open_ch c = true -> forallb is_space sp1 = true -> is_space s0 = true ->
   forallb not_comma mid = true -> forallb is_space w = true -> wrapped e ->
   last_as (tl e ++ rest) = None ->
   no_start_before _ (match_gen_at name)
-    (pre ++ c :: sp1 ++ bt_ident name ++ mid ++ K_AS ++ w ++ e ++ rest) (List.length pre) = true ->
-  set_gen_expr name (pre ++ c :: sp1 ++ bt_ident name ++ mid ++ K_AS ++ w ++ e ++ rest) = GenOk e.
+    (pre ++ c :: sp1 ++ bt_ident name ++ (s0 :: mid) ++ K_AS ++ w ++ e ++ rest) (List.length pre) = true ->
+  set_gen_expr name (pre ++ c :: sp1 ++ bt_ident name ++ (s0 :: mid) ++ K_AS ++ w ++ e ++ rest) = GenOk e.
 Proof. exact set_gen_expr_printed. Qed.
 Print Assumptions C03_regex_inverts_printer_genexpr_except.
 
@@ -136,15 +137,20 @@ Proof.
 Qed.
 Print Assumptions C03_regex_inverts_printer_checks_refuted.
 
-(** 3b. setGenExpr: in the planner's own CREATE TABLE with generated columns `cx` AS (a + 1)
-    and `c` AS (a * 2), column c is given cx's expression (the name is matched without a
-    boundary); and a string literal holding "AS (" inside the expression is taken for the
-    start of the expression. *)
+(** 3b. setGenExpr: a string literal holding "AS (" inside the expression is taken for the start of the
+    expression.  (The other former witness -- generated columns `cx` AS (a + 1) and `c` AS (a * 2) of the
+    planner's own CREATE TABLE, column c given cx's expression because the name was matched without a
+    boundary, known findings C03-prefix-column-names = C01-gen-col-name-prefix -- is FIXED in the Go code;
+    [C03_prefix_column_names_fixed] states the new behaviour and what the OLD regexp did.) *)
 Theorem C03_regex_inverts_printer_refuted_genexpr :
-  set_gen_expr (B "c") w_gen_text = GenOk (B "(a + 1)") /\
   set_gen_expr (B "g") w_gen_as_text = GenOk (B "(x')").
-Proof. exact (conj (proj1 w_gen_prefix) w_gen_as). Qed.
+Proof. exact w_gen_as. Qed.
 Print Assumptions C03_regex_inverts_printer_refuted_genexpr.
+Theorem C03_prefix_column_names_fixed :
+  (set_gen_expr (B "c") w_gen_text = GenOk (B "(a * 2)") /\ set_gen_expr (B "cx") w_gen_text = GenOk (B "(a + 1)")) /\
+  (* the old code *) set_gen_expr_old (B "c") w_gen_text = GenOk (B "(a + 1)").
+Proof. exact (conj w_gen_prefix_fixed (proj1 w_gen_prefix)). Qed.
+Print Assumptions C03_prefix_column_names_fixed.
 
 (** 3c. autoinc: a [bracket]-quoted AUTOINCREMENT column is not recognised, and the letters
     AUTOINCREMENT later in the definition of a plain INTEGER PRIMARY KEY column are. *)
